@@ -36,6 +36,19 @@ func Shortest(p1, p2 P, rects []Rect) []P {
 	// find list of diagonals that the path has to cross
 	dlist := crossedDiagonals(start.ID, end.ID, adj, map[int]bool{})
 
+	// an end point that lies on a crossed diagonal (or on one of its vertices) belongs to the triangles on both sides:
+	// drop such diagonals, otherwise the funnel would process the end point as a diagonal vertex and corrupt the
+	// predecessor chain
+	for len(dlist) > 0 && dlist[0].contains(p1) {
+		dlist = dlist[1:]
+	}
+	for len(dlist) > 0 && dlist[len(dlist)-1].contains(p2) {
+		dlist = dlist[:len(dlist)-1]
+	}
+	if len(dlist) == 0 {
+		return []P{p2, p1}
+	}
+
 	// append the last diagonal that has p2 as endpoint, it doesn't matter by which endpoint it's connected
 	dlist = append(dlist, &Segment{dlist[len(dlist)-1].A, p2})
 
